@@ -205,6 +205,31 @@ Theorem savelog_complete_registry : forall pname pid idtext ops k en,
 Proof. exact ProofsTrace.savelog_complete_registry. Qed.
 Print Assumptions savelog_complete_registry.
 
+(* ================================================================== trace: several saveLog calls *)
+
+(* saveLog changes nothing in the recorder: after any history of recording operations and saves
+   the map is what the same history without the saves gives *)
+Theorem save_is_read_only : forall h, hist_final [] h = reg_run (ops_of h).
+Proof. exact ProofsTrace.save_is_read_only. Qed.
+Print Assumptions save_is_read_only.
+
+(* every save sees, under every thread id, exactly the events recorded before it - whether or
+   not earlier saves happened, on threads that recorded before an earlier save and on new ones *)
+Theorem save_sees_everything_so_far : forall h1 h2 id,
+  reg_evs (nth (length (hist_saves [] h1)) (hist_saves [] (h1 ++ HSave :: h2)) []) id = recs_of id (ops_of h1).
+Proof. exact ProofsTrace.save_sees_everything_so_far. Qed.
+Print Assumptions save_sees_everything_so_far.
+
+(* a later save contains everything an earlier one contained (as a prefix, per thread id) plus
+   what was recorded in between *)
+Theorem later_save_contains_earlier_events : forall h1 h2 h3 id,
+  let all := h1 ++ HSave :: h2 ++ HSave :: h3 in
+  let first := nth (length (hist_saves [] h1)) (hist_saves [] all) [] in
+  let second := nth (length (hist_saves [] (h1 ++ HSave :: h2))) (hist_saves [] all) [] in
+  reg_evs second id = reg_evs first id ++ recs_of id (ops_of h2).
+Proof. exact ProofsTrace.later_save_contains_earlier_events. Qed.
+Print Assumptions later_save_contains_earlier_events.
+
 (* ================================================================== trace: the string cache *)
 
 (* the string logged for an event is the string its pointer designates: for ANY sequence of
@@ -368,4 +393,13 @@ Example ex_string_cache_loop :
   let loop := [1; 1; 2; 1; 3; 1] in
   sc_run [] (map (fun p => (p, txt p)) (loop ++ loop ++ loop)) = map txt (loop ++ loop ++ loop) /\
   nth 10 (sc_run [] (map (fun p => (p, txt p)) (loop ++ loop ++ loop))) [] = S_ "swapBuffers".
+Proof. vm_compute. split; reflexivity. Qed.
+
+(* record, save, record more on the same thread and on a new one, save again *)
+Example ex_two_saves :
+  let h := [HRec (RAttach 7); HRec (RRec 7 (evM "a" 1)); HSave; HRec (RRec 7 (evM "b" 2)); HRec (RAttach 9);
+            HRec (RRec 9 (evM "x" 3)); HSave; HRec (RRec 7 (evM "c" 4))] in
+  map (fun r => (reg_evs r 7, reg_evs r 9)) (hist_saves [] h) =
+    [([evM "a" 1], []); ([evM "a" 1; evM "b" 2], [evM "x" 3])] /\
+  reg_evs (hist_final [] h) 7 = [evM "a" 1; evM "b" 2; evM "c" 4].
 Proof. vm_compute. split; reflexivity. Qed.
